@@ -142,6 +142,7 @@ def run_case(case, ctx):
             ctx.probe("malformed_skipped")
             continue
         cr = canon_ranking(out.cons.consensus_rankings[0])
+        ctx.event("result", jsonable_ranking(cr))
         if groups is not None:
             if not _respects(model.bucket_of(cr), groups):
                 ctx.violate("C06/consensus-ignores-partition", jsonable_ranking(cr),
